@@ -1,13 +1,28 @@
 import Naga.Sexp
 import Naga.Sem.IRTyping
+import Naga.Model.Registry
 namespace Naga.Driver.C09
 open Naga
 
 def norm (s : String) : String := String.ofList (s.toList.map (fun c => if c.isDigit then 'N' else c))
 
+def parseReq : Sexp → Option Registry.Entry
+  | .list [.atom name, .atom "scalar", k, w] => do some (name, .scalar (← k.nat?) (← w.nat?))
+  | .list [.atom name, .atom "vector", n, k, w] => do some (name, .vector (← n.nat?) (← k.nat?) (← w.nat?))
+  | .list [.atom name, .atom "matrix", c, r, k, w] => do some (name, .matrix (← c.nat?) (← r.nat?) (← k.nat?) (← w.nat?))
+  | .list [.atom name, .atom "array", b, .atom "runtime", st] => do some (name, .array (← b.nat?) none (← st.nat?))
+  | .list [.atom name, .atom "array", b, l, st] => do some (name, .array (← b.nat?) (some (← l.nat?)) (← st.nat?))
+  | .list [.atom name, .atom "pointer", b, sp] => do some (name, .pointer (← b.nat?) (← sp.nat?))
+  | .list [.atom name, .atom "atomic", k, w] => do some (name, .atomic (← k.nat?) (← w.nat?))
+  | _ => none
+
 /-- `(c09 (typed …))` ↦ `wf` or the diagnostics of the strict validator. -/
 def handle (line : String) : String :=
   match Sexp.parseLine line with
+  | some [.list (.atom "reg" :: reqs)] =>
+    match reqs.mapM parseReq with
+    | some rs => let (a, hs) := Registry.runReqs [] rs; s!"handles {hs} size {a.length}"
+    | none => "bad-case request"
   | some [.list [.atom "c09", x]] =>
     match IRTyping.validateTyped x with
     | none => "bad-case module does not parse"
